@@ -413,8 +413,8 @@ class QWorld:
         self.R2 = vc.opaque(name + ".R2", "addr")
         if self.R is not None:
             vc.assume(self.R != self.R2)
-        self.prior = vc.opaque(name + ".prior_entry", "entry")
-        self.other = vc.opaque(name + ".other_entry", "entry")
+        self.prior = SCFG.gen_entry(vc, name + ".prior_entry", sd_type=vc.choice(name + ".prior_type", (H.SOMEIPSDEntryType.OfferService, H.SOMEIPSDEntryType.SubscribeAck)), resolved=True)
+        self.other = SCFG.gen_entry(vc, name + ".other_entry", sd_type=H.SOMEIPSDEntryType.OfferService, resolved=True)
         self.state = vc.choice(name + ".R_queue", ("none", "open-empty", "open-one", "done"))
         self.col = None
         if self.state != "none":
@@ -445,7 +445,7 @@ def ob_queue_send(vc):
     destination (created if there is none or the last one has expired), behind what was
     queued before, and that collector's window closes no later than timeout from now"""
     w = QWorld(vc)
-    entry = vc.opaque("entry", "entry")
+    entry = SCFG.gen_entry(vc, "entry", sd_type=vc.choice("entry_type", (H.SOMEIPSDEntryType.OfferService, H.SOMEIPSDEntryType.SubscribeAck)), resolved=True)
     n_timers = len(w.loop.timers)
     vc.body(SD.ServiceAnnouncer.queue_send)(w.ann, entry, w.R)
     if w.timeout == 0:
@@ -467,7 +467,7 @@ def ob_queue_send(vc):
         vc.cover("created")
         vc.check_eq(c.data, [entry], "queue_send.new_collector_holds_the_entry")
         vc.check_eq(len(w.loop.timers), n_timers + 1, "queue_send.new_collector_arms_one_timer")
-        vc.check(c.kwargs == {"remote": w.R} and c.args == () and c.callback == w.prot.send_sd, "queue_send.collector_sends_to_its_destination")
+        vc.check(len(c.kwargs) == 1 and c.kwargs.get("remote") == w.R and c.args == () and c.callback == w.prot.send_sd, "queue_send.collector_sends_to_its_destination")
     h = c._handle
     vc.check(h.callback == c._handle_timeout and not h.cancelled_ and not h.fired, "queue_send.collector_timer_live")
     vc.check(h.when <= w.loop.now + w.timeout, "queue_send.leaves_no_later_than_timeout_after_queueing")
@@ -485,7 +485,7 @@ def ob_collector_timeout(vc):
     vc.check(fired, "collector.timer_fires")
     vc.check(w.col.done, "collector.closed_after_timeout")
     vc.check_eq(w.sends, [([w.prior] if w.state == "open-one" else [], w.R)], "collector.sends_once_in_order_to_its_destination")
-    o = vc.outcome(w.col.append, vc.opaque("late", "entry"))
+    o = vc.outcome(w.col.append, SCFG.gen_entry(vc, "late", sd_type=H.SOMEIPSDEntryType.OfferService, resolved=True))
     vc.check(vc.is_exc(o, RuntimeError), "collector.closed_collector_refuses_entries")
     vc.check(not w.loop.fire(w.col._handle), "collector.fires_at_most_once")
 
@@ -495,12 +495,12 @@ def ob_queue_then_timeout(vc):
     with everything queued before it for that destination in front of it"""
     w = QWorld(vc)
     vc.assume(w.timeout != 0)
-    entry = vc.opaque("entry", "entry")
+    entry = SCFG.gen_entry(vc, "entry", sd_type=vc.choice("entry_type", (H.SOMEIPSDEntryType.OfferService, H.SOMEIPSDEntryType.SubscribeAck)), resolved=True)
     w.ann.queue_send(entry, w.R)
     c = w.ann.send_queues.get(w.R)
     w.loop.fire(c._handle)
-    n = len([1 for s in w.sends if entry in s[0]])
-    vc.check_eq(n, 1, "queued_entry.transmitted_exactly_once")
+    n = len([1 for s in w.sends if s[0][len(s[0]) - 1] is entry])
+    vc.check_eq(n, 1, "queued_entry.transmitted_exactly_once_as_the_last_of_its_message")
     vc.check_eq([s[1] for s in w.sends], [w.R], "queued_entry.only_to_its_destination")
 
 
